@@ -277,6 +277,7 @@ func checkC15(c *Ctx, r *Report) {
 	r.Decided = []string{
 		"R1 guarded-by discipline: every access (outside the allocating function) to each lock-guarded field of the shared components — entry maps, entry metadata LastAccess/Expires, SyncMap.ma, Event.subscribers — has the guarding lock class in its interprocedural must-hold set, in exclusive mode for writes; container uses (lookup, range/next, insert, delete, append) are checked at the use, not at the load",
 		"R2 live metadata pointers handed out of a locked region: every field access through them anywhere in the module is subject to R1 (whole-struct copies count as reads of every field)",
+		"R5 header maps handed to a response are filled by copying values, never by storing the stored entry's value slices (aliasing would make concurrent hits append into one backing array)",
 		"R4 every other field of a shared component type is a synchronisation object, immutable after the allocating function, or owner-confined to the listed functions; an unclassified mutable field is reported",
 	}
 	r.NotDec = []string{"happens-before edges other than lock regions, allocation-before-publication and goroutine start", "races inside dependencies", "benign races the Go memory model forbids but a lock discipline cannot distinguish are reported, not waived"}
@@ -451,6 +452,10 @@ func checkC15(c *Ctx, r *Report) {
 				r.OkT("C15.R4", fk, "-", fmt.Sprintf("immutable after the allocating function (%d reads, no write outside it)", len(as)))
 			}
 		}
+	}
+	// ---- R5: stored header slices are not aliased into per-response header maps
+	for name, form := range setHeadersForms(c, li, nil, "") {
+		r.Check(form != "alias", "C15.R5", name+".SetHeaders copies header values", "-", "form="+form, "SetHeaders stores the source map's []string values themselves: on a cache hit the response header map aliases the stored entry's header slices, and the unsynchronised AddHeader/append calls of concurrent hits write one shared backing array (data race)")
 	}
 	r.Floor("C15.R1", nGuarded, 20, "guarded (field, function, mode) access groups")
 	r.Floor("C15.R4", len(fields), 25, "fields of shared component types accessed in the module")
